@@ -11,8 +11,13 @@ def dlStr : DL → String
   | .untouched => "untouched" | .cleared => "cleared" | .poisoned => "poisoned" | .armed => "armed"
 
 def c20dialc (a : List String) (obs : String) : String × String :=
+  if obs.startsWith "SKIP" then (obs, "skip") else
   match a with
-  | [bg, to, cx, dd, hs, fl] =>
+  | [bg, to, cx, dd, hs0, fl] =>
+    -- "a+b": the response arrives in two parts; the handshake I/O finishes when the second has arrived
+    let hs := match hs0.splitOn "+" with
+      | [x, y] => toString (natOr x + natOr y)
+      | _ => hs0
     let finish0 : Option Nat := match parseU dd, parseU hs with | some d, some h => some (d + h) | _, _ => none
     let (ctxEnd, isDl) : Option Nat × Bool :=
       if cx == "atfinish" then (finish0, false) else
